@@ -2,7 +2,7 @@ import logging
 from re import compile, match
 from typing import Dict, Optional, List
 from socket import gethostbyname, error as socket_error
-from ipaddress import ip_address, IPv4Address, IPv4Network
+from ipaddress import ip_address, AddressValueError, IPv4Address, IPv4Network
 
 # This regex check test: https://regex101.com/r/Zt9EyZ/1
 _NOT_ONLY_NUMBERS = compile(r"^[\d.]+$")
@@ -300,7 +300,14 @@ class TrafficFilter:
         Returns:
             bool: True if the IP is external, False otherwise
         """
-        return IPv4Address(ip) not in _PRIVATE_IP_RANGES.get(ip[:2], _BLACK_HOLE)
+        try:
+            address = IPv4Address(ip)
+        except AddressValueError:
+            # Only IPv4 ranges are classified: an IPv6 (or otherwise non IPv4) destination
+            # is never forwarded through the Proxy, and the decision must not raise.
+            return False
+
+        return address not in _PRIVATE_IP_RANGES.get(ip[:2], _BLACK_HOLE)
 
     def _is_external_domain(self, host: str) -> Optional[bool]:
         """Check whether an HOST is external or not
